@@ -105,10 +105,13 @@ def run(tier, replay=None):
         for n, (m, pc, idk, expect) in enumerate(classes):
             if regset != "rich" and (pc.startswith("h:") or (pc in ("ok", "argsNull", "argsMissing", "argsArray", "argsString") and m in ("tools/call", "prompts/get", "resources/read") and regset == "empty")):
                 continue
-            idv = 500 + n if idk == "int" else "par-%d" % n
-            body, _, _ = rc.body_for(m, pc, idv)
-            items.append({"id": "p%d" % n, "body": body, "expect_answer": True})
-            meta.append((m, pc, idk, expect, body))
+            idvs = [500 + n] if idk == "int" else ["par-%d" % n]
+            if tier == "thorough":
+                idvs += [1000000 + n, 9007199254740000 + n] if idk == "int" else ["é-😀-%d" % n, "x" * 300 + str(n)]
+            for v, idv in enumerate(idvs):
+                body, _, _ = rc.body_for(m, pc, idv)
+                items.append({"id": "p%d_%d" % (n, v), "body": body, "expect_answer": True})
+                meta.append((m, pc, "%s%d" % (idk, v), expect, body))
         for k, (m, pc, body) in enumerate(EXTRA.get(regset, [])):
             items.append({"id": "x%d" % k, "body": body, "expect_answer": True})
             meta.append((m, pc, "int", ["result", "rpc:-32602", "rpc:-32600"], body))
